@@ -442,6 +442,15 @@ func (x *Exec) builtin(st *State, fr *Frame, b *ssa.Builtin, args []Value, in *s
 		return ret(Scalar{n})
 	case "append":
 		return ret(x.appendB(st, fr, args, in))
+	case "ssa:wrapnilchk":
+		// wrapper of a value-receiver method called through a pointer: panics iff the pointer is nil
+		if p, ok := args[0].(Ptr); ok {
+			if p.Obj == nil {
+				x.oblige(st, fr, "nil", x.site(fr, in), False())
+				return []Outcome{{Kind: oPanic, St: st, PanicS: "nil pointer in method wrapper"}}
+			}
+			return ret(p)
+		}
 	case "delete":
 		mv := args[0].(MapV)
 		if mv.Obj == nil {
@@ -601,6 +610,14 @@ func (x *Exec) external(st *State, fn *ssa.Function, args []Value, site string) 
 		return ret(Scalar{x.builderLen(st, args[0].(Ptr))})
 	case name == "(*strings.Builder).String":
 		return ret(StrV{x.freshVar("builder_string", StrS)})
+	case name == "bytes.NewReader":
+		// trusted model: a *bytes.Reader is an object that holds exactly the slice it was given and yields
+		// exactly those bytes, then io.EOF (documented behaviour of package bytes)
+		o := x.newObj(types.NewStruct(nil, nil), "bytes.Reader")
+		st.Heap[o.ID] = StructV{F: []Value{args[0]}}
+		return ret(Ptr{Obj: o})
+	case name == "(*bytes.Buffer).Bytes":
+		return ret(x.load(st, args[0].(Ptr)).(StructV).F[0])
 	case name == "strconv.AppendInt":
 		// appends the decimal rendering: length 1..20, content not modelled
 		old := args[0].(SliceV)
